@@ -62,6 +62,18 @@ func checkC13(c *Ctx) {
 	if !c.Quick() {
 		maxM = 5
 	}
+	trail := []shape{{1, 2, 0}, {1, 3, 0}, {0, 3, 0}, {2, 4, 0}}
+	if !c.Quick() {
+		trail = append(trail, shape{1, 5, 0}, shape{2, 6, 0}, shape{0, 6, 0})
+	}
+	for _, s := range trail {
+		jobs = append(jobs, Job{
+			Name:   fmt.Sprintf("trailing layout T1=%d L=%d", s.t1, s.l),
+			Target: t,
+			Run:    SymRun{Harness: "VerifC13Trailing", Params: map[string]int{"T1": s.t1, "L": s.l, "K": 3}, LoopBound: 24, InitExtra: extra, Intrinsics: c13Stubs, Prune: true},
+			Bounds: fmt.Sprintf("every ASCII text t1 (%d bytes, no quote/slash/angle characters) followed, up to the end of the file, by every layout of %d bytes (white space, /* */ comments, // comments with or without final newline): same tokens as t1 alone", s.t1, s.l),
+		})
+	}
 	for m := 0; m <= maxM; m++ {
 		jobs = append(jobs, Job{
 			Name:   fmt.Sprintf("quoting M=%d", m),
@@ -84,7 +96,7 @@ func checkC13(c *Ctx) {
 			Bounds: "every code point in " + what,
 		})
 	}
-	c.BoundsText = append(c.BoundsText, "scanner/literal level only: the real scanner.Init/next/Scan/skipWhitespace/scanComment/scanChar/scanString/scanRawString/scanEscape, ast.NewStringLit and util.LitToRune; (i) any non-empty layout between two texts gives the same (type, text) token sequence as a single space, leading layout is invisible; (ii) \"c\" and `c` are one string_lit each with the same value; (iii) the spellings of a character (ASCII: five; U+0080..U+00FF: five incl. raw UTF-8; U+0100..U+FFFF: raw UTF-8, \\u, \\U) are one char_lit each with the same code point (values for all valid literals: C20)",
+	c.BoundsText = append(c.BoundsText, "scanner/literal level only: the real scanner.Init/next/Scan/skipWhitespace/scanComment/scanChar/scanString/scanRawString/scanEscape, ast.NewStringLit and util.LitToRune; (i) any non-empty layout between two texts gives the same (type, text) token sequence as a single space, leading layout is invisible, and so is layout at the end of the file (a final // comment without newline included); (ii) \"c\" and `c` are one string_lit each with the same value; (iii) the spellings of a character (ASCII: five; U+0080..U+00FF: five incl. raw UTF-8; U+0100..U+FFFF: raw UTF-8, \\u, \\U) are one char_lit each with the same code point (values for all valid literals: C20)",
 		"outside the claim: that nothing but token types/texts and literal values flows into the generated files (an information-flow fact, not a solver query); byte identity of whole generated packages; non-ASCII text outside character literals (unicode tables); code points above U+FFFF")
 	c.RunJobs(filterJobs(jobs), 4)
 }
